@@ -84,6 +84,28 @@ NA = {
  "C20": "whether the marker is found depends on where it falls relative to 4096-byte read boundaries and on block contents: runtime quantities (binary length, content); no structural rule in reach separates the scan from a correct windowed search without reasoning about offsets symbolically (a different technique family)",
 }
 
+# rules added after the two seeding rounds (DESIGN.md 7.3); appended to the level text
+ADDED = {
+ "C01": "Also: the filter pipeline of ProcessEvent (scope test and suppression per candidate), freshness of everything Match returns or appends to, and the bit formula of the state matcher by truth table (bit-parallel operators).",
+ "C02": "Also: RemoveObservers inside the engine names a non-nil source on every path; no re-entrance into a held engine lock.",
+ "C03": "Also: operator runtimes keep no state between evaluations.",
+ "C04": "Also: a loop execution allocates its own iterator state, no except clause is tried after one matched, and the loop body's error is never returned without the break check.",
+ "C05": "Also: parameter bindings are not loop-carried, concat and list/map literals return fresh containers, new() runs the init of the finished object.",
+ "C06": "Also: embedded error pointers are non-nil at every store; three reviewed entries carry a machine-checked premise.",
+ "C07": "Also: no error of a parser function is dropped, and the parser position is not used after a failed advance.",
+ "C08": "Also: the format guard compares the tree of the bytes read from the file and covers every token field the interpreter reads.",
+ "C09": "Also: a signal announces an update its waiters read and follows it on every path; polling exits read their quantities in one critical section; no re-entrance into a held pool lock.",
+ "C10": "Also: priority heap and counter map change together; priorities are int end to end.",
+ "C11": "Also: identifier generators are atomic; the sink action binds event on a parent-less scope.",
+ "C12": "Also: thread ids come from one atomic step.",
+ "C13": "Also: atomically updated package state is never accessed plainly and never decides a branch of a parse.",
+ "C14": "Also: the scan position shrinks on every back edge, iterations of the scan loop do not communicate, the lexer hands raw strings over as substrings of the input.",
+ "C15": "Also: break-on-error is gated by the control-signal classifier, StopThreads wakes every suspended thread, the wait predicate is not reset after publication, no re-entrance into the debugger lock.",
+ "C16": "Also: no command handler reaches a function acquiring the debugger lock it holds; results are JSON-encodable by type or sanitised origin and contain no live reference to a debugger table.",
+ "C18": "Also: the newline test covers every rune a scan loop examines, the parse path never computes with PrefixNewlines, the separation test sees the statement parsed last.",
+ "C19": "Also: every use of reflect in the adapter is under the recover; the trailing error is delivered for every arity.",
+}
+
 def main():
     props = [json.loads(l)["id"] for l in open(os.path.join(HERE, "properties.jsonl"))]
     checks, na = [], []
@@ -97,7 +119,7 @@ def main():
                 "evidence_file": "/verif/evidence/%s.json" % pid,
                 "replay_cmd_template": "./run.sh replay {path}",
                 "engine": "ecalcheck",
-                "level_claimed": {"category": "other", "text": text, "design_ref": "DESIGN.md section " + ref},
+                "level_claimed": {"category": "other", "text": text + (" " + ADDED[pid] if pid in ADDED else ""), "design_ref": "DESIGN.md section " + ref + " and 7.3"},
                 "level_note": TRUST,
                 "technique": tech,
             })
